@@ -101,8 +101,10 @@ pub enum Ty {
     Param(usize),
     /// `T::Inner` for the parameter with that index (associated-type stratum)
     Assoc(usize),
+    /// `Prim(Str)` is `String`
     Prim(Prim),
-    /// `&'static str` is Ptr(Ref, Prim(Str)) rendered specially
+    /// the unsized `str` (only written under a pointer or `Cow`): `&'static str` is Ptr(Ref, StrSlice)
+    StrSlice,
     Def(usize, Vec<Ty>),
     Tuple(Vec<Ty>),
     Array(u32, Box<Ty>),
@@ -121,6 +123,8 @@ pub enum Ty {
     Compact(Box<Ty>),
     /// store primitive, msb0?
     BitVec(Prim, bool),
+    /// `BitVec<S, O>` whose store and/or order is a type parameter (closed form normalises to BitVec)
+    BitVecP(Box<Ty>, Box<Ty>),
     /// bitvec::order::{Lsb0,Msb0} marker types (msb0?)
     BitOrder(bool),
     Phantom(Box<Ty>),
@@ -129,7 +133,7 @@ pub enum Ty {
 impl Ty {
     pub fn children(&self) -> Vec<&Ty> {
         match self {
-            Ty::Param(_) | Ty::Assoc(_) | Ty::Prim(_) | Ty::NonZero(_) | Ty::Duration | Ty::BitVec(..) | Ty::BitOrder(_) => {
+            Ty::Param(_) | Ty::Assoc(_) | Ty::Prim(_) | Ty::StrSlice | Ty::NonZero(_) | Ty::Duration | Ty::BitVec(..) | Ty::BitOrder(_) => {
                 vec![]
             }
             Ty::Def(_, a) | Ty::Tuple(a) => a.iter().collect(),
@@ -144,7 +148,7 @@ impl Ty {
             | Ty::RangeIncl(t)
             | Ty::Compact(t)
             | Ty::Phantom(t) => vec![t],
-            Ty::Res(a, b) | Ty::Map(a, b) => vec![a, b],
+            Ty::Res(a, b) | Ty::Map(a, b) | Ty::BitVecP(a, b) => vec![a, b],
         }
     }
     pub fn any(&self, f: &mut dyn FnMut(&Ty) -> bool) -> bool {
@@ -165,7 +169,7 @@ impl Ty {
         match self {
             Ty::Param(i) => args[*i].clone(),
             Ty::Assoc(i) => assoc(&args[*i]),
-            Ty::Prim(_) | Ty::NonZero(_) | Ty::Duration | Ty::BitVec(..) | Ty::BitOrder(_) => self.clone(),
+            Ty::Prim(_) | Ty::StrSlice | Ty::NonZero(_) | Ty::Duration | Ty::BitVec(..) | Ty::BitOrder(_) => self.clone(),
             Ty::Def(d, a) => Ty::Def(*d, a.iter().map(|t| t.subst(args, assoc)).collect()),
             Ty::Tuple(a) => Ty::Tuple(a.iter().map(|t| t.subst(args, assoc)).collect()),
             Ty::Array(n, t) => Ty::Array(*n, s(t)),
@@ -181,26 +185,22 @@ impl Ty {
             Ty::RangeIncl(t) => Ty::RangeIncl(s(t)),
             Ty::Compact(t) => Ty::Compact(s(t)),
             Ty::Phantom(t) => Ty::Phantom(s(t)),
+            Ty::BitVecP(a, b) => Ty::BitVecP(s(a), s(b)),
         }
     }
-    /// Rust type identity as scale-info sees it: transparent pointers erased, sequence kinds
-    /// merged. Only meaningful for closed types.
-    pub fn normalize(&self) -> Ty {
-        let n = |t: &Ty| Box::new(t.normalize());
+    /// the closed Rust type itself, with representation-only normalisation (a `BitVecP` whose
+    /// store and order are closed is the same type as the `BitVec`)
+    pub fn exact(&self) -> Ty {
+        let n = |t: &Ty| Box::new(t.exact());
         match self {
-            Ty::Ptr(_, t) => t.normalize(),
-            Ty::Seq(_, t) => Ty::Seq(SeqKind::Vec, n(t)),
-            Ty::Param(_) | Ty::Assoc(_) | Ty::Prim(_) | Ty::NonZero(_) | Ty::Duration | Ty::BitVec(..) | Ty::BitOrder(_) => {
+            Ty::Param(_) | Ty::Assoc(_) | Ty::Prim(_) | Ty::StrSlice | Ty::NonZero(_) | Ty::Duration | Ty::BitVec(..) | Ty::BitOrder(_) => {
                 self.clone()
             }
-            Ty::Def(d, a) => Ty::Def(*d, a.iter().map(|t| t.normalize()).collect()),
-            Ty::Tuple(a) => Ty::Tuple(
-                a.iter()
-                    .filter(|t| !matches!(t, Ty::Phantom(_)))
-                    .map(|t| t.normalize())
-                    .collect(),
-            ),
+            Ty::Def(d, a) => Ty::Def(*d, a.iter().map(|t| t.exact()).collect()),
+            Ty::Tuple(a) => Ty::Tuple(a.iter().map(|t| t.exact()).collect()),
             Ty::Array(k, t) => Ty::Array(*k, n(t)),
+            Ty::Seq(k, t) => Ty::Seq(*k, n(t)),
+            Ty::Ptr(k, t) => Ty::Ptr(*k, n(t)),
             Ty::Opt(t) => Ty::Opt(n(t)),
             Ty::Res(a, b) => Ty::Res(n(a), n(b)),
             Ty::Cow(t) => Ty::Cow(n(t)),
@@ -210,9 +210,33 @@ impl Ty {
             Ty::Range(t) => Ty::Range(n(t)),
             Ty::RangeIncl(t) => Ty::RangeIncl(n(t)),
             Ty::Compact(t) => Ty::Compact(n(t)),
-            // all PhantomData<_> are one type for scale-info
-            Ty::Phantom(_) => Ty::Phantom(Box::new(Ty::Tuple(vec![]))),
+            Ty::Phantom(t) => Ty::Phantom(n(t)),
+            Ty::BitVecP(a, b) => match (a.exact(), b.exact()) {
+                (Ty::Prim(p), Ty::BitOrder(m)) => Ty::BitVec(p, m),
+                (x, y) => Ty::BitVecP(Box::new(x), Box::new(y)),
+            },
         }
+    }
+    /// The key scale-info interns a closed type under: `TypeId::of::<T::Identity>()`. `Identity` is
+    /// applied ONCE, at the top: `Box<X>`/`Rc<X>`/`Arc<X>`/`&X` are keyed as the exact type `X`,
+    /// `Vec<X>`/`VecDeque<X>` as `[X]`, `String` as `str`, every `PhantomData<_>` as one type;
+    /// everything below the top is compared as the exact Rust type. Hence `Box<Vec<u8>>` (keyed
+    /// `Vec<u8>`) and `Vec<u8>` (keyed `[u8]`) are two registry entries with the same content.
+    pub fn key(&self) -> Ty {
+        match self.exact() {
+            Ty::Ptr(_, inner) => *inner,
+            Ty::Seq(_, t) => Ty::Seq(SeqKind::Slice, t),
+            Ty::Prim(Prim::Str) => Ty::StrSlice,
+            Ty::Phantom(_) => Ty::Phantom(Box::new(Ty::Tuple(vec![]))),
+            o => o,
+        }
+    }
+    /// does wrapping this closed type in a transparent pointer give a different registry entry?
+    pub fn identity_changes_under_pointer(&self) -> bool {
+        self.key() != self.exact()
+    }
+    pub fn normalize(&self) -> Ty {
+        self.key()
     }
 }
 
@@ -225,6 +249,10 @@ pub struct ParamDecl {
     /// `T: HasCompact` parameter: instantiated with unsigned integers (or wrappers of them) only,
     /// may be used as `#[codec(compact)] f: T` and `Compact<T>`
     pub compactable: bool,
+    /// `S: BitStore` parameter (instantiated with u8/u16/u32/u64), used as `BitVec<S, _>`
+    pub bitstore: bool,
+    /// `O: BitOrder` parameter (instantiated with Lsb0/Msb0), used as `BitVec<_, O>`
+    pub bitorder: bool,
 }
 
 #[derive(Clone, Debug, PartialEq, Eq)]
@@ -301,6 +329,10 @@ impl Def {
 pub struct Program {
     pub defs: Vec<Def>,
     pub roots: Vec<Ty>,
+    /// how std/codec types are spelled in the source (and therefore in the recorded type names):
+    /// 0 = imported names (`Compact<T>`, `Box<T>`), 1 = path-qualified (`codec::Compact<T>`,
+    /// `alloc::boxed::Box<T>`, `sp_std::vec::Vec<T>`)
+    pub name_style: u8,
 }
 
 // ---------------------------------------------------------------------------------------------
@@ -325,6 +357,7 @@ impl<'a> Render<'a> {
             Ty::Param(i) => self.params[*i].name.clone(),
             Ty::Assoc(i) => format!("{}::Inner", self.params[*i].name),
             Ty::Prim(p) => p.name().to_string(),
+            Ty::StrSlice => "str".to_string(),
             Ty::Def(d, a) => {
                 let n = self.prog.defs[*d].name();
                 if a.is_empty() {
@@ -341,22 +374,18 @@ impl<'a> Render<'a> {
                 }
             }
             Ty::Array(n, t) => format!("[{}; {}]", self.ty(t), n),
+            Ty::Seq(SeqKind::Vec, t) if self.prog.name_style == 1 => format!("sp_std::vec::Vec<{}>", self.ty(t)),
             Ty::Seq(SeqKind::Vec, t) => format!("Vec<{}>", self.ty(t)),
             Ty::Seq(SeqKind::VecDeque, t) => format!("VecDeque<{}>", self.ty(t)),
             Ty::Seq(SeqKind::Slice, t) => format!("[{}]", self.ty(t)),
             Ty::Opt(t) => format!("Option<{}>", self.ty(t)),
             Ty::Res(a, b) => format!("Result<{}, {}>", self.ty(a), self.ty(b)),
+            Ty::Ptr(PtrKind::Box, t) if self.prog.name_style == 1 => format!("alloc::boxed::Box<{}>", self.ty(t)),
             Ty::Ptr(PtrKind::Box, t) => format!("Box<{}>", self.ty(t)),
             Ty::Ptr(PtrKind::Rc, t) => format!("Rc<{}>", self.ty(t)),
             Ty::Ptr(PtrKind::Arc, t) => format!("Arc<{}>", self.ty(t)),
-            Ty::Ptr(PtrKind::Ref, t) => match &**t {
-                Ty::Prim(Prim::Str) => "&'static str".to_string(),
-                t => format!("&'static {}", self.ty(t)),
-            },
-            Ty::Cow(t) => match &**t {
-                Ty::Prim(Prim::Str) => "Cow<'static, str>".to_string(),
-                t => format!("Cow<'static, {}>", self.ty(t)),
-            },
+            Ty::Ptr(PtrKind::Ref, t) => format!("&'static {}", self.ty(t)),
+            Ty::Cow(t) => format!("Cow<'static, {}>", self.ty(t)),
             Ty::Map(a, b) => format!("BTreeMap<{}, {}>", self.ty(a), self.ty(b)),
             Ty::Set(t) => format!("BTreeSet<{}>", self.ty(t)),
             Ty::Heap(t) => format!("BinaryHeap<{}>", self.ty(t)),
@@ -364,8 +393,10 @@ impl<'a> Render<'a> {
             Ty::RangeIncl(t) => format!("RangeInclusive<{}>", self.ty(t)),
             Ty::NonZero(p) => format!("NonZero{}", p.name().to_uppercase()),
             Ty::Duration => "Duration".to_string(),
+            Ty::Compact(t) if self.prog.name_style == 1 => format!("codec::Compact<{}>", self.ty(t)),
             Ty::Compact(t) => format!("Compact<{}>", self.ty(t)),
             Ty::BitVec(s, msb) => format!("BitVec<{}, {}>", s.name(), if *msb { "Msb0" } else { "Lsb0" }),
+            Ty::BitVecP(a, b) => format!("BitVec<{}, {}>", self.ty_raw(a), self.ty_raw(b)),
             Ty::BitOrder(msb) => (if *msb { "Msb0" } else { "Lsb0" }).to_string(),
             Ty::Phantom(t) => format!("PhantomData<{}>", self.ty(t)),
         }
@@ -413,6 +444,10 @@ impl Program {
                             format!("{}: Config", p.name)
                         } else if p.compactable {
                             format!("{}: HasCompact", p.name)
+                        } else if p.bitstore {
+                            format!("{}: BitStore", p.name)
+                        } else if p.bitorder {
+                            format!("{}: BitOrder", p.name)
                         } else {
                             p.name.clone()
                         })
